@@ -1,5 +1,6 @@
 import NriModel.Props.C03
 import NriModel.Props.C04
+import NriModel.Props.C01
 /-!
 # Plugins as functions of what they are shown: NRI is a pipeline of spec transformers
 
@@ -7,8 +8,8 @@ The theorems of C01–C05 speak about chains of plugin *responses*. A real plugi
 response from the container it is shown, so the responses of a chain are not independent of the
 collector: plugin *i* answers `fᵢ (viewᵢ)` where `viewᵢ` is what the collector shows it, which
 depends on the answers of plugins 0 … i−1. Here a plugin is a function
-`Handler := Container → Option Response` (`none`: not subscribed / dropped), the creation
-request is `runF` (each handler applied to the view of the state it is called in), and the
+`Handler := Shown → Option Response` of the container and resources it is shown (`none`: not
+subscribed / dropped), the request is `runF` (each handler applied to the view of the state it is called in), and the
 theorems of C03 and C04 are lifted to that setting by instantiating them with the responses the
 handlers actually give (`responsesAlong`):
 
@@ -18,6 +19,7 @@ handlers actually give (`responsesAlong`):
 * `pipeline_reply` (C03 lifted) — the spec the runtime obtains from the combined reply is
   `SpecEq` to the spec obtained by a *pipeline*: apply `f₀` to the original, apply its adjustment
   to the spec, show the next plugin the overlaid container, apply its adjustment, …;
+* `pipeline_update_views` (C04 lifted, update requests), `pipeline_no_silent_merge` (C01 lifted);
 * `pipeline_views` (C04 lifted) — at every position the container handed to handler *i*
   `ViewAgrees` with the spec the generator makes of the reply combined so far.
 
@@ -26,17 +28,23 @@ sequential composition of the plugins as spec transformers, each seeing the spec
 far.
 -/
 namespace Nri.Props.Pipeline
-open Nri Nri.NApi Nri.Result Nri.Compose Nri.Generate
+open Nri Nri.NApi Nri.Result Nri.Compose Nri.Generate Nri.Ledger Nri.UpdateWalk
 
-/-- a plugin as a function of the container it is shown; `none` = not subscribed or dropped -/
-abbrev Handler := Container → Option Response
+/-- what a plugin is shown: the container (creation requests: as adjusted so far) and the
+    resources (update requests: as updated so far) -/
+abbrev Shown := Container × Resources
+
+def shown (st : State) : Shown := (st.view, st.reqRes)
+
+/-- a plugin as a function of what it is shown; `none` = not subscribed or dropped -/
+abbrev Handler := Shown → Option Response
 
 /-- the loop of `Adaptation.CreateContainer` over plugins that compute their response from what
     they are shown -/
 def runF (q : Quirks) (st : State) : List (Plugin × Handler) → Except Err State
   | [] => .ok st
   | (p, f) :: rest =>
-    match f st.view with
+    match f (shown st) with
     | none => runF q st rest
     | some r =>
       match apply q st p r with
@@ -47,7 +55,7 @@ def runF (q : Quirks) (st : State) : List (Plugin × Handler) → Except Err Sta
 def responsesAlong (q : Quirks) (st : State) : List (Plugin × Handler) → List (Plugin × Option Response)
   | [] => []
   | (p, f) :: rest =>
-    match f st.view with
+    match f (shown st) with
     | none => (p, none) :: responsesAlong q st rest
     | some r =>
       match apply q st p r with
@@ -58,7 +66,7 @@ def responsesAlong (q : Quirks) (st : State) : List (Plugin × Handler) → List
 def viewsF (q : Quirks) (st : State) : List (Plugin × Handler) → List State
   | [] => []
   | (p, f) :: rest =>
-    match f st.view with
+    match f (shown st) with
     | none => st :: viewsF q st rest
     | some r =>
       match apply q st p r with
@@ -72,7 +80,7 @@ theorem runF_eq_run (q : Quirks) (hs : List (Plugin × Handler)) (st : State) :
   | cons x rest ih =>
     obtain ⟨p, f⟩ := x
     simp only [runF, responsesAlong]
-    cases hf : f st.view with
+    cases hf : f (shown st) with
     | none => simp only [run]; exact ih st
     | some r =>
       cases ha : apply q st p r with
@@ -86,7 +94,7 @@ theorem viewsF_eq_viewsAlong (q : Quirks) (hs : List (Plugin × Handler)) (st : 
   | cons x rest ih =>
     obtain ⟨p, f⟩ := x
     simp only [viewsF, responsesAlong]
-    cases hf : f st.view with
+    cases hf : f (shown st) with
     | none => simp only [viewsAlong]; rw [ih st]
     | some r =>
       cases ha : apply q st p r with
@@ -97,13 +105,13 @@ theorem viewsF_eq_viewsAlong (q : Quirks) (hs : List (Plugin × Handler)) (st : 
     that position: position `i` of the responses is `fᵢ` applied to position `i` of the views -/
 theorem response_is_handler_of_view (q : Quirks) (hs : List (Plugin × Handler)) (st : State)
     (i : Nat) (s : State) (h : (viewsF q st hs)[i]? = some s) :
-    ∃ p f, hs[i]? = some (p, f) ∧ (responsesAlong q st hs)[i]? = some (p, f s.view) := by
+    ∃ p f, hs[i]? = some (p, f) ∧ (responsesAlong q st hs)[i]? = some (p, f (shown s)) := by
   induction hs generalizing st i with
   | nil => simp [viewsF] at h
   | cons x rest ih =>
     obtain ⟨p, f⟩ := x
     simp only [viewsF, responsesAlong] at h ⊢
-    cases hf : f st.view with
+    cases hf : f (shown st) with
     | none =>
       simp only [hf] at h
       cases i with
@@ -171,10 +179,34 @@ theorem pipeline_views {ext : Externals} {bad : List Str}
     (h : (viewsF Quirks.fixed (initCreate c0) hs)[i]? = some s) :
     (∀ sC, adjust ext (toSpec c0) (toGen s.reply) = .ok sC → ViewAgrees s.view sC) ∧
     (∃ p f, hs[i]? = some (p, f) ∧
-      (responsesAlong Quirks.fixed (initCreate c0) hs)[i]? = some (p, f s.view)) := by
+      (responsesAlong Quirks.fixed (initCreate c0) hs)[i]? = some (p, f (shown s))) := by
   refine ⟨?_, response_is_handler_of_view _ hs _ i s h⟩
   rw [viewsF_eq_viewsAlong] at h
   exact (C04.C04_view_agrees hi c0 _ hs0 hg i s h).1
+
+/-- **C04 (update requests) for plugins that look at what they are shown.** Handler `i` of an
+    update request is shown exactly what the specification walk yields over the answers the
+    earlier handlers gave (each computed from what *it* was shown). -/
+theorem pipeline_update_views (id : Cid) (req : Resources) (hs : List (Plugin × Handler)) (i : Nat)
+    (s : State) (h : (viewsF Quirks.fixed (initUpdate id req) hs)[i]? = some s) :
+    s.reqRes = (walk (specBase (.update id) req)
+        (answered ((responsesAlong Quirks.fixed (initUpdate id req) hs).take i))).get
+        (specBase (.update id) req) id := by
+  rw [viewsF_eq_viewsAlong] at h
+  exact C04.C04_update_dropped id req _ i s h
+
+/-- **C01 for plugins that look at what they are shown.** When a request over handlers succeeds,
+    no item was strictly set by two of the answers given along the way without a removal from
+    the later one (or one in between) back to the earlier. -/
+theorem pipeline_no_silent_merge (st st' : State) (hs : List (Plugin × Handler))
+    (pre mid post : List (Plugin × Option Response)) (pi pj : Plugin) (ri rj : Response)
+    (c : Cid) (it : Item)
+    (hok : runF Quirks.fixed st hs = .ok st')
+    (hdec : responsesAlong Quirks.fixed st hs = pre ++ (pi, some ri) :: (mid ++ (pj, some rj) :: post))
+    (hsi : it ∈ setsOn true st.kind ri c) (hsj : it ∈ setsOn true st.kind rj c) :
+    it ∈ removesOn st.kind rj c ∨ ∃ p r, (p, some r) ∈ mid ∧ it ∈ removesOn st.kind r c := by
+  rw [runF_eq_run, hdec] at hok
+  exact C01.C01_no_silent_merge st st' pre mid post pi pj ri rj c it hok hsi hsj
 
 /-! ### non-vacuity: a chain whose second plugin's answer depends on what the first did -/
 
@@ -182,7 +214,7 @@ theorem pipeline_views {ext : Externals} {bad : List Str}
 def hFirst : Handler := fun _ =>
   some { adjust := some { annotations := [(str "k0", str "v1")] } }
 /-- copies whatever value it is shown for `k0` into the environment variable `SEEN` -/
-def hSecond : Handler := fun c =>
+def hSecond : Handler := fun (c, _) =>
   some { adjust := some { env := [{ key := str "SEEN", value := (AList.lookup c.annotations (str "k0")).getD (str "none") }] } }
 
 def demoC : Container := { id := str "c0", annotations := [(str "orig", str "x")], env := [str "PATH=/bin"] }
@@ -196,5 +228,17 @@ example :
      | .error _ => none) = some [(str "SEEN", str "v1")] := by decide
 
 example : (adjustmentsAlong demoC demoHs).length = 2 := by decide
+
+/-- update request: the second plugin doubles whatever memory limit it is shown into CPU shares -/
+def uFirst : Handler := fun _ =>
+  some { updates := [{ containerId := str "c0", resources := some { memory := some { limit := some 21 } } }] }
+def uSecond : Handler := fun (_, r) =>
+  some { updates := [{ containerId := str "c0",
+                       resources := some { cpu := some { shares := ((r.memory.getD {}).limit.map fun l => (2 * l).toNat) } } }] }
+
+example :
+    (match runF Quirks.fixed (initUpdate (str "c0") { pids := some 5 }) [(str "10-a", uFirst), (str "20-b", uSecond)] with
+     | .ok st' => some ((st'.reqRes.memory.getD {}).limit, (st'.reqRes.cpu.getD {}).shares, st'.reqRes.pids)
+     | .error _ => none) = some (some 21, some 42, some 5) := by decide
 
 end Nri.Props.Pipeline
